@@ -191,6 +191,9 @@ type c17Ctl struct {
 	active atomic.Int32 // writer goroutines launched and not yet returned
 	free   atomic.Bool
 	freeCh chan struct{}
+	// entries acknowledged so far (appended on the writer's goroutine right after its call
+	// returned, under mu): what a crash at this instant must not lose
+	ackNow []string
 }
 
 func c17Goid() uint64 {
@@ -340,8 +343,61 @@ func (c *c17Ctl) launch(st iface.Store, w *c17Writer, startGate <-chan struct{})
 				continue
 			}
 			call.retHash = op.GetEntry().GetHash().String()
+			c.mu.Lock()
+			c.ackNow = append(c.ackNow, call.retHash)
+			c.mu.Unlock()
 		}
 	}()
+}
+
+// crashPoint: the process stops at this instant.  What a restart has to go by are the heads
+// persisted in the store's cache; every write acknowledged so far must be one of them or one
+// of their ancestors (the blocks themselves are written by the append, before anything is
+// acknowledged).  Returns the acknowledged entries a restart would not find.  Writers parked
+// at a schedule point hold no lock of the log, and a writer acknowledges only after its whole
+// call: on a tree that persists the head before it acknowledges this never reports anything,
+// whatever the other writers are doing.
+func (c *c17Ctl) crashPoint(st iface.Store) []string {
+	c.mu.Lock()
+	acked := append([]string{}, c.ackNow...)
+	c.mu.Unlock()
+	if len(acked) == 0 {
+		return nil
+	}
+	ctx := context.Background()
+	covered := map[string]bool{}
+	var todo []string
+	for _, k := range []string{"_localHeads", "_remoteHeads"} {
+		raw, _ := st.Cache().Get(ctx, datastoreKey(k))
+		todo = append(todo, headHashes(raw)...)
+	}
+	byHash := map[string]ipfslog.Entry{}
+	for _, e := range st.OpLog().Values().Slice() {
+		byHash[e.GetHash().String()] = e
+	}
+	for len(todo) > 0 {
+		h := todo[len(todo)-1]
+		todo = todo[:len(todo)-1]
+		if covered[h] {
+			continue
+		}
+		covered[h] = true
+		if e, ok := byHash[h]; ok {
+			for _, x := range e.GetNext() {
+				todo = append(todo, x.String())
+			}
+			for _, x := range e.GetRefs() {
+				todo = append(todo, x.String())
+			}
+		}
+	}
+	var lost []string
+	for _, h := range acked {
+		if !covered[h] {
+			lost = append(lost, h)
+		}
+	}
+	return lost
 }
 
 // c17StepWait bounds the wait for a released writer to reach its next point.  Reaching it
@@ -1039,6 +1095,8 @@ func c17RunOne(r *Run, pi int, p c17Plan) error {
 	blocked := false
 	var executed []int
 	skipped, timeouts := 0, 0
+	var crashLost []string // acknowledged entries that the persisted heads did not cover at some step
+	crashAt := 0
 	if forced {
 		// poll: has the flying writer reached its next point (or returned)?
 		settle := func(w *c17Writer, d time.Duration) bool {
@@ -1103,7 +1161,14 @@ func c17RunOne(r *Run, pi int, p c17Plan) error {
 				// that queues up behind the same lock
 				wait = c17StepWaitAgain
 			}
-			if !settle(w, wait) {
+			arrivedNow := settle(w, wait)
+			// a crash at this instant (whoever is parked, queued behind a lock or has returned)
+			r.Count("crash-point-inspected")
+			if lostNow := ctl.crashPoint(st); len(lostNow) > 0 && crashLost == nil {
+				crashLost = lostNow
+				crashAt = len(executed)
+			}
+			if !arrivedNow {
 				blocked = true
 				timeouts++
 				r.Count("forced:step-timeout")
@@ -1168,6 +1233,13 @@ func c17RunOne(r *Run, pi int, p c17Plan) error {
 		r.AddDirect("hang:writers", "writers did not return within 20 s", descr)
 		r.Count("hang")
 		return nil
+	}
+	if crashLost != nil {
+		descr["sig"] = "acknowledged-before-persisted"
+		descr["lost_at_crash"] = len(crashLost)
+		descr["crash_after_steps"] = crashAt
+		r.AddDirect("crash:acknowledged-write-not-persisted", fmt.Sprintf("after %d scheduled steps %d acknowledged write(s) were neither a persisted head (_localHeads/_remoteHeads) nor an ancestor of one: a crash at that instant loses them", crashAt, len(crashLost)), descr)
+		r.Count("crash-point-loses-acknowledged-write")
 	}
 	sim.TheHooks.Extra = nil
 
